@@ -58,7 +58,9 @@ func (d *DescribeAclsResponse) decode(pd packetDecoder, version int16) (err erro
 	if err != nil {
 		return err
 	}
-	d.ResourceAcls = make([]*ResourceAcls, n)
+	if n >= 0 {
+		d.ResourceAcls = make([]*ResourceAcls, n)
+	}
 
 	for i := 0; i < n; i++ {
 		d.ResourceAcls[i] = new(ResourceAcls)
